@@ -38,8 +38,8 @@ PY = sys.executable
 STUB = os.path.join(os.path.dirname(os.path.dirname(os.path.abspath(__file__))), "mc", "solverstub.py")
 CONSTS = [0xA1A1A1A1, 0xB2B2B2B2, 0xC3C3C3C3]
 OUTCOMES = ["success", "revert", "panic", "failflag", "stuck"]
-REPLIES_FULL = ["sat", "sat-abstract:sat", "sat-abstract:unsat", "sat-abstract:unknown", "unsat", "unknown", "sleep:3", "empty", "garbage", "exit1-sat", "crash"]
-REPLIES_QUICK = ["sat", "sat-abstract:unsat", "unsat", "unknown", "sleep:3", "garbage", "crash"]
+REPLIES_FULL = ["sat", "sat-abstract:sat", "sat-abstract:unsat", "sat-abstract:unknown", "unsat", "unsat-nocore", "unknown", "sleep:3", "empty", "garbage", "exit1-sat", "crash"]
+REPLIES_QUICK = ["sat", "sat-abstract:unsat", "unsat", "unsat-nocore", "unknown", "sleep:3", "garbage", "crash"]
 REPLIES_STUCK = ["sat", "unsat", "unknown", "garbage", "sleep:3"]
 
 
@@ -75,7 +75,7 @@ def classify(reply):
         return classify(second) if second != "sat" else "sat"
     if r in ("sat", "exit1-sat"):
         return "sat"
-    if r == "unsat":
+    if r in ("unsat", "unsat-nocore"):
         return "unsat"
     if r == "unknown" or r.startswith("sleep"):
         return "unknown"
@@ -141,6 +141,9 @@ class ScriptedSolver:
             time.sleep(float(secs))
         if mode.startswith("sleep"):
             raise subprocess.TimeoutExpired(["scripted-solver", path], 1)
+        if mode == "unsat-nocore":
+            # a solver that proves unsat without naming any tracked assertion prints an empty core
+            return "unsat\n()\n", "", 0
         out, rc = solverstub.reply(mode, path, text)
         if out.startswith("unsat"):
             # with --cache-solver the query names its assertions: report the whole query as the core, in reverse order (any
